@@ -96,6 +96,7 @@ type Impl struct {
 	comp    *stepper
 	backups map[string]*stepper
 	saved   map[string]savedState
+	iters   map[string]*pogreb.ItemIterator
 
 	// Abandoned handles (after simulated crashes) are kept alive so that finalizers do nothing odd.
 	zombies []*pogreb.DB
@@ -108,6 +109,7 @@ type savedState struct {
 
 // New returns an interpreter on an empty file system.
 func New() *Impl {
+	pogreb.VerifYield = nil
 	return &Impl{FS: tfs.New(), Dir: "db", MaxSeg: math.MaxUint32, MinSeg: 32 << 20, FragBits: 0x3f000000,
 		backups: map[string]*stepper{}, saved: map[string]savedState{}}
 }
@@ -481,6 +483,7 @@ func (im *Impl) Exec(line string) (out []string) {
 		if im.DB == nil {
 			return closedErr("compact")
 		}
+		pogreb.VerifYield = nil
 		im.begin()
 		cr, err := im.DB.Compact()
 		out = im.end()
@@ -525,6 +528,28 @@ func (im *Impl) Exec(line string) (out []string) {
 			return append(out, fmt.Sprintf("cstep done %d %d %d", c.cr.CompactedSegments, c.cr.ReclaimedRecords, c.cr.ReclaimedBytes))
 		}
 		return append(out, "cstep more")
+	case "iternew":
+		if im.DB == nil {
+			return []string{"iternew err closed"}
+		}
+		if im.iters == nil {
+			im.iters = map[string]*pogreb.ItemIterator{}
+		}
+		im.iters[f[1]] = im.DB.Items()
+		return []string{"iternew ok"}
+	case "iternext":
+		it := im.iters[f[1]]
+		if it == nil {
+			return []string{"iternext noiter"}
+		}
+		k, v, err := it.Next()
+		if err == pogreb.ErrIterationDone {
+			return []string{"iternext done"}
+		}
+		if err != nil {
+			return []string{"iternext err " + errName(err)}
+		}
+		return []string{"iternext " + Hex(k) + " " + Hex(v)}
 	case "dump":
 		return im.dump()
 	case "dumprecs":
@@ -573,6 +598,7 @@ func (im *Impl) Exec(line string) (out []string) {
 		if im.DB == nil {
 			return []string{"backup err closed"}
 		}
+		pogreb.VerifYield = nil
 		if err := im.DB.Backup("bk_" + f[1]); err != nil {
 			return []string{"backup err " + errName(err)}
 		}
